@@ -59,8 +59,23 @@ Definition compile_agrees (c : gcase) : bool :=
   | _ => forest_compiles (gc_forest c)
   end.
 
+(* A forest with a Workflow (eager task manager, C02/C03) somewhere: when several tasks of the Workflow fail (a
+   failing lambda and a nested graph that runs out of steps, say), which failure the run reports depends on
+   who completes first; the model follows one schedule. Then only "the run fails, and executed lambdas of the
+   case" is compared (seen in the thorough tier on a loaded machine: max-steps vs no-tasks of two sibling
+   sub-graphs). Forests of any-predecessor graphs and chains are always compared strictly. *)
+Definition eager_failure (c : gcase) : bool :=
+  existsb g_eager (lower_forest (gc_forest c)) && negb (is_done (model_run c)).
+
+Definition weak_failure_ok (c : gcase) : bool :=
+  match o_class (gc_obs c), lower_forest (gc_forest c) with
+  | OFail _, g :: _ => weak_log_ok (lower_forest (gc_forest c)) g (o_log (gc_obs c))
+  | _, _ => false
+  end.
+
 Definition run_bad (c : ccase) : bool :=
   if (negb (N.eqb (cc_entry c) 0) && stream_incomparable (eff c))%bool then false
+  else if eager_failure (eff c) then negb (weak_failure_ok (eff c))
   else gcase_bad (eff c) || negb (chain_spec_ok (eff c)).
 
 (* (4) the hypotheses of the theorems hold on the case ([hyps_ok], Model/PregelHyps.v: every any-predecessor entry
